@@ -1,36 +1,42 @@
 #!/usr/bin/env python3
-"""Apply every seeded change to /repo in turn, run the quick checks of the properties it targets, undo it; write
-seeded/RESULTS.json.  Usage: seeded_matrix.py [ids...]"""
+"""Apply every seeded change to a scratch worktree of /repo (under /tmp, removed afterwards), run the quick checks of
+the properties it targets against that worktree (PYVC_REPO) with evidence and replays redirected (PYVC_OUT), and write
+seeded/RESULTS.json.  /repo and /verif/evidence are not touched.  Usage: seeded_matrix.py [ids...]"""
 import json, os, subprocess, sys, glob, shutil
-os.chdir("/verif")
+os.chdir(os.environ.get("VERIF_DIR", "/verif"))      # VERIF_DIR: run from a snapshot of /verif while /verif is being edited
 EXTRA = {"C02-A": ["C02", "C06"], "C02-B": ["C02"], "C03-A": ["C03", "C02"], "C03-B": ["C03", "C02"], "C06-A": ["C06", "C02"],
          "C06-B": ["C06", "C02"], "C07-A": ["C07", "C01"], "C07-B": ["C07", "C01"], "C01-A": ["C01"], "C01-B": ["C01"],
          "C15-B": ["C15", "C10"]}
 ids = sys.argv[1:] or sorted(os.path.basename(d) for d in glob.glob("seeded/C*-*"))
 out = json.load(open("seeded/RESULTS.json")) if os.path.exists("seeded/RESULTS.json") else {}
-assert subprocess.run("git -C /repo diff --quiet", shell=True).returncode == 0, "/repo dirty"
-for sid in ids:
-    props = EXTRA.get(sid, [sid.split("-")[0]])
-    r = subprocess.run("git -C /repo apply /verif/seeded/%s/patch.diff" % sid, shell=True, capture_output=True, text=True)
-    if r.returncode != 0:
-        out[sid] = {"applies": False, "note": "patch no longer applies to the repaired tree"}
-        print(sid, "does not apply")
-        continue
-    shutil.rmtree(".scratch/evidence.bak", ignore_errors=True)
-    shutil.copytree("evidence", ".scratch/evidence.bak")
-    res = {"applies": True, "checks": {}}
-    try:
+WT = "/tmp/seeded-wt"
+OUT = "/tmp/seeded-out"
+subprocess.run("git -C /repo worktree remove --force %s" % WT, shell=True, capture_output=True)
+shutil.rmtree(WT, ignore_errors=True)
+assert subprocess.run("git -C /repo worktree add --detach %s HEAD" % WT, shell=True, capture_output=True).returncode == 0
+env = dict(os.environ, PYVC_REPO=WT, PYVC_OUT=OUT)
+try:
+    for sid in ids:
+        props = EXTRA.get(sid, [sid.split("-")[0]])
+        subprocess.run("git -C %s checkout -- . && git -C %s clean -fdq" % (WT, WT), shell=True)
+        r = subprocess.run("git -C %s apply %s/seeded/%s/patch.diff" % (WT, os.getcwd(), sid), shell=True, capture_output=True, text=True)
+        if r.returncode != 0:
+            out[sid] = {"applies": False, "note": "patch no longer applies to the repaired tree"}
+            print(sid, "does not apply", flush=True)
+            continue
+        shutil.rmtree(OUT, ignore_errors=True)
+        res = {"applies": True, "checks": {}}
         for p in props:
-            c = subprocess.run("./check %s --tier quick" % p, shell=True, capture_output=True, text=True)
+            c = subprocess.run("./check %s --tier quick" % p, shell=True, capture_output=True, text=True, env=env)
             viol = [l.split("replay=")[0] for l in c.stdout.splitlines() if l.startswith("VIOLATION")]
             obl = [l.strip()[11:] for l in c.stdout.splitlines() if l.startswith("  obligation")]
             res["checks"][p] = {"exit": c.returncode, "violations": len(viol), "obligations": obl[:4],
                                 "no_failing_input": sum("no-failing-input-found" in l for l in c.stdout.splitlines())}
-    finally:
-        subprocess.run("git -C /repo checkout -- .", shell=True)
-        shutil.rmtree("evidence")
-        shutil.move(".scratch/evidence.bak", "evidence")
-    res["detected"] = any(v["exit"] == 1 for v in res["checks"].values())
-    out[sid] = res
-    print(sid, "DETECTED" if res["detected"] else "missed", {p: v["exit"] for p, v in res["checks"].items()})
-    json.dump(out, open("seeded/RESULTS.json", "w"), indent=1)
+        res["detected"] = any(v["exit"] == 1 for v in res["checks"].values())
+        out[sid] = res
+        print(sid, "DETECTED" if res["detected"] else "missed", {p: v["exit"] for p, v in res["checks"].items()}, flush=True)
+        json.dump(out, open("seeded/RESULTS.json", "w"), indent=1)
+finally:
+    subprocess.run("git -C /repo worktree remove --force %s" % WT, shell=True, capture_output=True)
+    shutil.rmtree(WT, ignore_errors=True)
+    shutil.rmtree(OUT, ignore_errors=True)
